@@ -182,6 +182,7 @@ func genAns(r *c.Rng, pOK float64) ans {
 type policy struct {
 	Groups, Addrs, Doms []string
 	Skip                []string
+	CookieDomain        string
 }
 
 type world struct {
@@ -219,7 +220,7 @@ func newWorld(auth *c.FakeAuth, dir string, p policy, L, V, G int64) *world {
 	yaml := "- service: decoy\n  default:\n    from: " + decoyHost + "\n    to: " + b.HostPort() + "\n    options:\n      allowed_email_domains: [\"*\"]\n      allowed_groups: [\"*\"]\n      skip_auth_regex: [\"^/x/\"]\n" +
 		"- service: svc\n  default:\n    from: " + host + "\n    to: " + b.HostPort() + "\n    options:\n" + strings.Join(opts, "\n") + "\n"
 	w, err := c.BuildProxy(c.ProxyOpts{YAML: yaml, Lifetime: time.Duration(L) * time.Second, Valid: time.Duration(V) * time.Second,
-		Grace: time.Duration(G) * time.Second, Dir: dir}, auth)
+		Grace: time.Duration(G) * time.Second, Dir: dir, CookieDomain: p.CookieDomain}, auth)
 	c.Must(err)
 	wd := &world{W: w, B: b, Pol: p, L: L, V: V, G: G, Slug: "google"}
 	for _, s := range p.Skip {
@@ -305,6 +306,15 @@ func (w *world) step(auth *c.FakeAuth, vnow int64, rq reqSpec, a ans) stepObs {
 	loc := rec.Header().Get("Location")
 	signin := strings.HasPrefix(loc, auth.Srv.URL+"/"+w.Slug+"/sign_in")
 	eff, val := c.CookieEffect(rec, w.W.CookieName)
+	wantDomain := host
+	if w.Pol.CookieDomain != "" {
+		wantDomain = w.Pol.CookieDomain
+	}
+	for _, ck := range rec.Result().Cookies() {
+		if ck.Name == w.W.CookieName && (ck.Domain != wantDomain || ck.Path != "/") {
+			eff, val = "misscoped", "" // a browser would not apply this Set-Cookie to the session cookie
+		}
+	}
 	effCoq := "CNone"
 	var saved *vsession
 	switch eff {
@@ -558,7 +568,7 @@ func history(r *c.Rng, auth *c.FakeAuth, worlds []*world, linear bool, maxLen in
 	outage := 0
 	for i := 0; i < n; i++ {
 		vnow += dts[r.Intn(len(dts))] * sec
-		rq := reqSpec{Method: "GET", Path: "/x/page", CookieKind: "none"}
+		rq := reqSpec{Method: "GET", Path: "/x/data", CookieKind: "none"} // matches no world's skip-auth pattern
 		var pres *vsession
 		if cur != nil {
 			pres = cur
@@ -620,6 +630,8 @@ func main() {
 		{Groups: []string{"*"}, Addrs: []string{"a@example.com", "bob@b.com"}},
 		{Addrs: []string{"a@example.com"}, Doms: []string{"example.com"}, Skip: []string{"^/x/open/"}},
 		{Doms: []string{"*"}},
+		{Groups: []string{"g1"}, Skip: []string{"auth$", "^/favicon", "page$"}},
+		{Doms: []string{"example.com", "*.example.com"}, CookieDomain: "example.test"},
 	}
 	var worlds []*world
 	for _, p := range pols {
